@@ -405,6 +405,9 @@ pub struct SinkInfo {
     pub err_fired: bool,
     pub reent_modes: [u8; 12],
     pub n_reent: u8,
+    /// hooks build: pre-emptions at library scheduling points (set by the engine)
+    pub ypaused: u16,
+    pub yhits: u16,
 }
 
 fn exec_fmt(
